@@ -32,7 +32,7 @@ func MapToObject(val *types.Item) (Object, error) {
 
 func mapComplexAttributeToObject(val *types.Item) (Object, error) {
 	switch {
-	case len(val.B) != 0:
+	case val.B != nil:
 		b := make([]byte, len(val.B))
 		copy(b, val.B)
 
